@@ -74,9 +74,10 @@ def run_cgls(c, rec):
     if rec.classify(tags, (m != n or np.any(x0 != 0)) and s > 0 or (m != n and np.any(x0 != 0))):
         return
     maxit = 50 * n + 200
-    x0c = x0.copy()
+    x0c, bc = x0.copy(), b.copy()
     sol, k = must(lambda: cuqi.solver.CGLS(op_forms(Am, c["form"]), b, x0, maxit, 1e-12, s).solve(), "CGLS.solve")
     require(maxdiff(x0, x0c) == 0, "CGLS altered the start vector")
+    require(maxdiff(b, bc) == 0, "CGLS altered the caller's right-hand side b", before=bc, after=b)
     # A has singular values in [1, 10]: conjugate gradients on the (shifted) normal equations reach 1e-12 in well under
     # 50 n + 200 iterations; a run that uses the whole budget returns a point that is not the solution
     require(k < maxit, "CGLS did not converge within 50 n + 200 iterations on a system with condition number <= 100", k=k, maxit=maxit, shift=s)
@@ -103,6 +104,7 @@ def pcgls_cases(draw, tier="quick"):
     c["Pl"] = draw(gen.mat(n, n, -0.3, 0.3))
     c["Pd"] = draw(st.lists(gen.fl(0.5, 3.0), min_size=n, max_size=n))
     c["Po"] = draw(gen.fl(-0.2, 0.2))
+    c["solve_branch"] = draw(st.booleans())
     return c
 
 
@@ -122,11 +124,28 @@ def run_pcgls(c, rec):
         P = np.diag(c["Pd"]) + 0.4 * np.eye(n, k=1)
     else:
         P = np.diag(c["Pd"]) + np.tril(A(c["Pl"]), -1)
-    tags = {"solver": "PCGLS", "form": c["form"], "P": c["Pkind"], "shape": "over" if m > n else ("under" if m < n else "square")}
+    tags = {"solver": "PCGLS", "form": c["form"], "P": c["Pkind"], "shape": "over" if m > n else ("under" if m < n else "square"),
+            "branch": "solve" if c.get("solve_branch") else "explicit_inverse"}
     if rec.classify(tags, c["Pkind"] != "identity" and (m != n or np.any(x0 != 0))):
         return
     maxit = 50 * n + 200
+    # cuqi.config.MAX_DIM_INV (documented, modifiable): at and above it PCGLS applies the preconditioner by solves instead of
+    # an explicit inverse; lowering it sends these small systems through the branch that dimensions >= 2000 take
+    old_inv = cuqi.config.MAX_DIM_INV
+    if c.get("solve_branch"):
+        cuqi.config.MAX_DIM_INV = 1
+    try:
+        _run_pcgls_body(c, rec, Am, P, b, x0, m, n, maxit)
+    finally:
+        cuqi.config.MAX_DIM_INV = old_inv
+
+
+def _run_pcgls_body(c, rec, Am, P, b, x0, m, n, maxit):
+    import cuqi
+    import scipy.sparse as sp
+    bc0 = b.copy()
     sol, k = must(lambda: cuqi.solver._solver.PCGLS(op_forms(Am, c["form"]), b, x0, sp.csc_matrix(P), maxit, 1e-12).solve(), "PCGLS.solve")
+    require(maxdiff(b, bc0) == 0, "PCGLS altered the caller's right-hand side b")
     require(k < maxit, "PCGLS did not converge within 50 n + 200 iterations on a well-conditioned system", k=k, maxit=maxit)
     g = Am.T @ (b - Am @ sol)
     scale = 1 + np.linalg.norm(Am.T @ b) + np.linalg.norm(Am) ** 2 * np.linalg.norm(sol)
@@ -158,6 +177,7 @@ def fista_cases(draw, tier="quick"):
     c["adaptive"] = draw(st.booleans())
     c["d"] = draw(gen.vec(n, -1, 1))
     c["dscale"] = draw(st.sampled_from([1e-4, 1e-2, 1.0]))
+    c["reassign"] = draw(st.booleans())
     if c["form"] == "sparse":
         c["form"] = "matrix"
     return c
@@ -183,13 +203,22 @@ def run_fista(c, rec):
     prox, reg, feas = make_prox(c)
     t = c["frac"] / np.linalg.norm(Am, 2) ** 2
     maxit = 40000
-    out = must(lambda: cuqi.solver.FISTA(op_forms(Am, c["form"]), b, x0, proximal=prox, maxit=maxit, stepsize=t,
-                                         abstol=1e-13, adaptive=c["adaptive"]).solve(), "FISTA.solve")
+    if c.get("reassign"):
+        # the solver object is built with another step size / proximal map and given the real ones through its attributes
+        other_prox = (lambda x, g: cuqi.solver.ProximalL1(x, 3.0 * g)) if c["prox"] != "l1" else (lambda x, g: cuqi.solver.ProjectNonnegative(x))
+        solver = cuqi.solver.FISTA(op_forms(Am, c["form"]), b, x0, proximal=other_prox, maxit=maxit, stepsize=0.37 * t, abstol=1e-13, adaptive=c["adaptive"])
+        solver.stepsize = t
+        solver.proximal = prox
+    else:
+        solver = cuqi.solver.FISTA(op_forms(Am, c["form"]), b, x0, proximal=prox, maxit=maxit, stepsize=t, abstol=1e-13, adaptive=c["adaptive"])
+    b0 = b.copy()
+    out = must(lambda: solver.solve(), "FISTA.solve")
+    require(maxdiff(b, b0) == 0, "FISTA altered the caller's right-hand side b")
     require(isinstance(out, tuple) and len(out) == 2, "FISTA.solve did not return (solution, iterations)", got=repr(out)[:80])
     sol, k = out
     Tx = prox(sol - t * (Am.T @ (Am @ sol - b)), t)
     active = bool(np.any(np.abs(Tx - (sol - t * (Am.T @ (Am @ sol - b)))) > 1e-12))
-    tags = {"solver": "FISTA" if c["adaptive"] else "ISTA", "prox": c["prox"], "form": c["form"]}
+    tags = {"solver": "FISTA" if c["adaptive"] else "ISTA", "prox": c["prox"], "form": c["form"], "reassigned": bool(c.get("reassign"))}
     if rec.classify(tags, active and (m != n or np.any(x0 != 0))):
         return
     if k >= maxit:
